@@ -68,6 +68,12 @@ impl<'de> Deserialize<'de> for Transaction {
     }
 }
 
+/// Re-exports of the private RLP primitives for the verification harness.
+#[cfg(feature = "verif-hooks")]
+pub mod verif_hooks {
+    pub use super::rlp::{bytes, len, list, uint};
+}
+
 #[cfg(test)]
 mod tests {
     use super::*;
